@@ -22,9 +22,12 @@ FUNCTIONS = ['uxarray.grid.intersections.fast_constant_lat_intersections',
     "uxarray.subset.grid_accessor.GridSubsetAccessor.nearest_neighbor@face centers",
     "uxarray.subset.grid_accessor.GridSubsetAccessor.bounding_circle@nodes",
     "uxarray.subset.grid_accessor.GridSubsetAccessor.bounding_circle@edge centers",
-    "uxarray.subset.grid_accessor.GridSubsetAccessor.bounding_circle@face centers"]
+    "uxarray.subset.grid_accessor.GridSubsetAccessor.bounding_circle@face centers",
+    'uxarray.grid.slice._slice_face_indices',
+    'uxarray.grid.slice._slice_node_indices',
+    'uxarray.grid.slice._slice_edge_indices']
 STANDINS = ["subsets"]
 ASSUMPTIONS = []
 EXPLANATION = ""
-LEVEL_TEXT = 'fast_constant_lat_intersections proved (loop invariant): selected edges are exactly those whose end nodes lie strictly on opposite sides of the parallel, increasing, no duplicates; the subset accessor proved to query the tree of the REQUESTED element kind (ball tree for lon/lat, k-d tree for xyz query points) and to slice the grid along the dimension of that kind; Grid.isel proved to dispatch each grid dimension to its own slicing routine, UxDataArray.isel proved to slice the grid of the array along the requested dimension and to re-attach the data through _slice_from_grid; UxDataArray._slice_from_grid proved (dataflow): the data are indexed along THEIR OWN grid dimension with exactly the indices the grid slice recorded, and the result carries the sliced grid; slicing/renumbering of the grid itself, boxes, circles bounded (independent geometric oracle)'
+LEVEL_TEXT = 'the slicing routines proved in dataflow form: node / edge selections keep exactly the faces listed in the selected rows of node_face / edge_face_connectivity (padding removed); _slice_face_indices hands Grid.from_dataset a dataset with no source-indexed incidence table, no face_edge table, hole edges or edge-face distances, the per-element variables kept, and node / edge index sets determined by the corner / edge rows of the kept faces only; fast_constant_lat_intersections proved (loop invariant): selected edges are exactly those whose end nodes lie strictly on opposite sides of the parallel, increasing, no duplicates; the subset accessor proved to query the tree of the REQUESTED element kind (ball tree for lon/lat, k-d tree for xyz query points) and to slice the grid along the dimension of that kind; Grid.isel proved to dispatch each grid dimension to its own slicing routine, UxDataArray.isel proved to slice the grid of the array along the requested dimension and to re-attach the data through _slice_from_grid; UxDataArray._slice_from_grid proved (dataflow): the data are indexed along THEIR OWN grid dimension with exactly the indices the grid slice recorded, and the result carries the sliced grid; slicing/renumbering of the grid itself, boxes, circles bounded (independent geometric oracle)'
 LEVEL_NOTE = 'prange treated as range (A-NUMBA): each iteration writes only its own mask cell; argwhere/unique models'
